@@ -6,6 +6,7 @@ import os
 from fractions import Fraction
 
 from . import e7_rainir as R
+from . import c05sem as SEM
 from .core import AnchorError, Unsupported
 from .e1_srcmodel import dotted, walk_no_nested, utext
 
@@ -50,22 +51,17 @@ def _split(ir, what):
 
 
 def _py_region(ctx, name):
+    """allocations, returns and the function node (the counting code itself is lowered raw by _py_raw_region)"""
     fn = ctx.src.func(PYFILE, name)
-    body = [s for s in fn.body if not (isinstance(s, ast.Expr) and isinstance(s.value, ast.Constant))]
     allocs = {}
-    keep = []
     rets = []
-    for s in body:
-        if isinstance(s, ast.Assign) and isinstance(s.value, ast.Call) and dotted(s.value.func) in ("np.empty", "np.zeros"):
-            allocs[s.targets[0].id] = s.value
-        elif isinstance(s, ast.Return):
-            rets.append(s)
-        else:
-            keep.append(s)
-    low = R.PyLower(fn)
-    ir = low.block(keep)
-    inits, region = _split(ir, f"py {name}")
-    return (inits, region), allocs, rets, fn
+    for st in fn.body:
+        if isinstance(st, ast.Assign) and isinstance(st.value, ast.Call) and dotted(st.value.func) in ("np.empty", "np.zeros") \
+                and isinstance(st.targets[0], ast.Name):
+            allocs[st.targets[0].id] = st.value
+        elif isinstance(st, ast.Return):
+            rets.append(st)
+    return allocs, rets, fn
 
 
 def _py_raw_region(ctx, name):
@@ -74,6 +70,9 @@ def _py_raw_region(ctx, name):
     keep = [s for s in fn.body if not (isinstance(s, ast.Expr) and isinstance(s.value, ast.Constant))
             and not (isinstance(s, ast.Assign) and isinstance(s.value, ast.Call) and dotted(s.value.func) in ("np.empty", "np.zeros"))
             and not isinstance(s, ast.Return)]
+    loops = [i for i, st in enumerate(keep) if isinstance(st, (ast.For, ast.While))]
+    if loops:
+        keep = keep[: loops[-1] + 1]      # statements after the step-6 loop only prepare the return value (see _py_slices)
     ir = R.PyLower(fn, group=False).block(keep)
     return _split(ir, f"py {name}")
 
@@ -125,91 +124,6 @@ def astm_reference(with_offsets):
     return [("for", "k", _num(0), _v("L"), outer), ("set", A, pts(_num(0))), ("for", "k", _num(0), j, s6)]
 
 
-def _norm(region):
-    c = R.canon(region)
-    a, mp = R.alpha(c)
-    return R.canon(a), mp
-
-
-def _reorder_independent(stmts):
-    """Within a block, order maximal runs of mutually independent statements canonically, so that
-    e.g. (count update, emit) vs (emit, count update) or swapped X/Y definitions compare equal."""
-    def rw(s):
-        """(reads, writes)"""
-        if s[0] == "set":
-            r = R.expr_vars(s[2])
-            w = {s[1][1]}
-            if s[1][0] == "idx":
-                r |= R.expr_vars(s[1][2])
-            return r, w
-        if s[0] == "emit":
-            r = set()
-            for e in s[2]:
-                r |= R.expr_vars(e)
-            return r, {"<out:%s>" % s[1]}
-        return None
-
-    out = []
-    run = []
-
-    def flush():
-        nonlocal run
-        # stable bubble: swap adjacent independent statements into canonical order
-        changed = True
-        while changed:
-            changed = False
-            for i in range(len(run) - 1):
-                a, b = run[i], run[i + 1]
-                ra, wa = rw(a)
-                rb, wb = rw(b)
-                indep = not (wa & (rb | wb)) and not (wb & ra)
-                if indep and repr(b) < repr(a):
-                    run[i], run[i + 1] = b, a
-                    changed = True
-        out.extend(run)
-        run = []
-
-    for s in stmts:
-        if s[0] in ("set", "emit"):
-            run.append(s)
-        else:
-            flush()
-            if s[0] == "for":
-                out.append(("for", s[1], s[2], s[3], _reorder_independent(s[4])))
-            elif s[0] == "while":
-                out.append(("while", s[1], _reorder_independent(s[2])))
-            elif s[0] == "if":
-                out.append(("if", s[1], _reorder_independent(s[2]), _reorder_independent(s[3])))
-            else:
-                out.append(s)
-    flush()
-    return out
-
-
-def _nf(region, names=None):
-    if names:
-        region = R.rename(region, names)
-    return _reorder_independent(R.canon(region))
-
-
-def _erase_offsets(region, ci, osn):
-    out = []
-    for s in region:
-        if s[0] == "emit" and s[1] == osn:
-            continue
-        if s[0] == "set" and s[1][0] == "idx" and s[1][1] == ci:
-            continue
-        if s[0] == "for":
-            out.append(("for", s[1], s[2], s[3], _erase_offsets(s[4], ci, osn)))
-        elif s[0] == "while":
-            out.append(("while", s[1], _erase_offsets(s[2], ci, osn)))
-        elif s[0] == "if":
-            out.append(("if", s[1], _erase_offsets(s[2], ci, osn), _erase_offsets(s[3], ci, osn)))
-        else:
-            out.append(s)
-    return out
-
-
 class Sides:
     pass
 
@@ -224,8 +138,8 @@ def _load(ctx):
         (ini, reg), low, fdecl = _c_region(ctx, nm)
         S.c[nm] = dict(inits=ini, region=reg, low=low, fdecl=fdecl)
     for nm in ("_rainflow1", "_rainflow2"):
-        (ini, reg), allocs, rets, fn = _py_region(ctx, nm)
-        S.py[nm] = dict(inits=ini, region=reg, allocs=allocs, rets=rets, fn=fn)
+        allocs, rets, fn = _py_region(ctx, nm)
+        S.py[nm] = dict(raw=_py_raw_region(ctx, nm), allocs=allocs, rets=rets, fn=fn)
     ctx._c05 = S
     ctx.src.mods.setdefault(CFILE, _CMod(ctx.repo, CFILE))
     return S
@@ -242,209 +156,27 @@ def _cwhere(line=None):
     return f"{CFILE}" + (f":{line}" if line else "")
 
 
-def r1_isomorphism(ctx):
-    S = _load(ctx)
-    for cn, pn in (("rainflow1", "_rainflow1"), ("rainflow2", "_rainflow2")):
-        c = S.c[cn]
-        p = S.py[pn]
-        # Python's row counter has been absorbed by the emit normalisation; C's full-cycle counter is `fullcyclesp1` on both sides
-        a = _nf(c["region"])
-        b = _nf(p["region"])
-        ok = a == b
-        ctx.check(ok, f"IR isomorphism: c_rain.{cn} == py_rain.{pn} (same transition system, exact expression trees)",
-                  f"{CFILE} ({cn}) vs {PYFILE}:{p['fn'].lineno} ({pn})", None if ok else R.first_diff(a, b))
-        # initial state
-        ci, pi = c["inits"], p["inits"]
-        for var in ("j", "fullcyclesp1"):
-            ok = ci.get(var) == pi.get(var) and ci.get(var) is not None
-            ctx.check(ok, f"{cn}/{pn}: initial {var} agrees ({ci.get(var)} vs {pi.get(var)})", f"{CFILE} ({cn})")
-        ok = pi.get("n") == -1
-        ctx.check(ok, f"{pn}: row counter starts at -1 (first emitted row is 0)", p["fn"])
+def r1_equivalence(ctx):
+    """C == Python, unit by unit and path by path (semantic: insensitive to temporaries, statement order, hoisting, local names)"""
+    SEM.r1_equivalence(ctx, _load(ctx))
 
 
 def r2_erasure(ctx):
-    S = _load(ctx)
-    a = _nf(_erase_offsets(S.c["rainflow2"]["region"], "cycle_index", "os"))
-    b = _nf(S.c["rainflow1"]["region"])
-    ok = a == b
-    ctx.check(ok, "c_rain.rainflow1 == rainflow2 with the offsets erased", _cwhere(), None if ok else R.first_diff(a, b))
-    a = _nf(_erase_offsets(S.py["_rainflow2"]["region"], "cycle_index", "os"))
-    b = _nf(S.py["_rainflow1"]["region"])
-    ok = a == b
-    ctx.check(ok, "py_rain._rainflow1 == _rainflow2 with the offsets erased", S.py["_rainflow1"]["fn"],
-              None if ok else R.first_diff(a, b))
-
-
-def _is_three_point_stack_loop(region):
-    try:
-        outer = region[0]
-        w = [s for s in outer[4] if s[0] == "while"]
-        return outer[0] == "for" and len(w) == 1
-    except Exception:  # noqa
-        return False
+    """rainflow1 is rainflow2 with the offset bookkeeping erased, on both sides"""
+    SEM.r2_erasure(ctx, _load(ctx))
 
 
 def r3_astm(ctx):
-    S = _load(ctx)
-    for side, nm, names in (("C", "rainflow1", {}), ("C", "rainflow2", {}), ("py", "_rainflow1", {}), ("py", "_rainflow2", {})):
-        d = S.c[nm] if side == "C" else S.py[nm]
-        reg = d["region"]
-        if not _is_three_point_stack_loop(reg):
-            ctx.error(f"{side} {nm}: not a three-point stack loop (a different formulation of rainflow; R3 cannot decide it)", None)
-            continue
-        off = nm.endswith("2")
-        ref = astm_reference(off)
-        a, _ = _norm(_reorder_independent(R.canon(reg)))
-        b, _ = _norm(_reorder_independent(R.canon(ref)))
-        a, b = _reorder_independent(a), _reorder_independent(b)
-        ok = a == b
-        where = _cwhere() + f" ({nm})" if side == "C" else d["fn"]
-        ctx.check(ok, f"{side} {nm}: the counting loop equals the ASTM E1049-85 5.4.4 steps 1-6 automaton (up to renaming)", where,
-                  None if ok else R.first_diff(a, b))
+    """each of the four counters equals the ASTM E1049-85 5.4.4 automaton transcribed in astm_reference()"""
+    SEM.r3_astm(ctx, _load(ctx), astm_reference)
 
 
 def r5_lockstep(ctx):
-    S = _load(ctx)
-    for side, nm in (("C", "rainflow2"), ("py", "_rainflow2")):
-        d = S.c[nm] if side == "C" else S.py[nm]
-        where = _cwhere() + f" ({nm})" if side == "C" else d["fn"]
-        nmoves = nemits = 0
-
-        def visit(stmts):
-            nonlocal nmoves, nemits
-            sets = [s for s in stmts if s[0] == "set"]
-            for s in sets:
-                if s[1][0] == "idx" and s[1][1] == "pts":
-                    src = s[2]
-                    if src[0] == "idx" and src[1] == "pts":
-                        want = ("set", ("idx", "cycle_index", s[1][2]), ("idx", "cycle_index", src[2]))
-                    elif src[0] == "idx" and src[1] == "peaks":
-                        want = ("set", ("idx", "cycle_index", s[1][2]), src[2])
-                    else:
-                        ctx.fail(f"{side} {nm}: unrecognised store into the reversal stack", where, R.fmt([s]))
-                        continue
-                    ok = want in stmts
-                    nmoves += 1
-                    ctx.check(ok, f"{side} {nm}: stack move `{R.fmt([s])[0]}` is paired with `{R.fmt([want])[0]}`", where)
-                if s[1][0] == "idx" and s[1][1] == "cycle_index":
-                    # no index move without the matching value move
-                    src = s[2]
-                    if src[0] == "idx" and src[1] == "cycle_index":
-                        want = ("set", ("idx", "pts", s[1][2]), ("idx", "pts", src[2]))
-                        ctx.check(want in stmts, f"{side} {nm}: index move `{R.fmt([s])[0]}` has its value move", where)
-            for i, s in enumerate(stmts):
-                if s[0] == "emit" and s[1] == "rf":
-                    nemits += 1
-                    nxt = stmts[i + 1] if i + 1 < len(stmts) else None
-                    mean = s[2][1]
-                    # mean = (p + q)/2 ; offsets must be the indices of p and q
-                    pq = None
-                    if mean[0] == "bin" and mean[1] == "/" and mean[2][0] == "bin" and mean[2][1] == "+":
-                        pq = (mean[2][2], mean[2][3])
-                    ok = False
-                    if nxt and nxt[0] == "emit" and nxt[1] == "os" and pq and len(nxt[2]) == 2:
-                        o0, o1 = nxt[2]
-                        if pq[0][0] == "idx" and pq[0][1] == "pts":
-                            ok = o0 == ("idx", "cycle_index", pq[0][2]) and o1 == ("idx", "cycle_index", pq[1][2])
-                        elif pq[0][0] == "var":
-                            # step 6: A = pts[k] (carried), B = pts[k+1]
-                            bdef = [t for t in stmts if t[0] == "set" and t[1] == pq[1]]
-                            ok = bool(bdef) and bdef[0][2][0] == "idx" and o1 == ("idx", "cycle_index", bdef[0][2][2]) \
-                                and o0 == ("idx", "cycle_index", ("bin", "-", bdef[0][2][2], ONE)) or \
-                                (bool(bdef) and bdef[0][2] == ("idx", "pts", ("bin", "+", ("var", "k"), ONE))
-                                 and o0 == ("idx", "cycle_index", ("var", "k")) and o1 == ("idx", "cycle_index", ("bin", "+", ("var", "k"), ONE)))
-                    ctx.check(ok, f"{side} {nm}: offsets emitted with `{R.fmt([s])[0][:60]}` name the two points whose range is counted", where,
-                              None if ok else R.fmt([nxt]) if nxt else None)
-            for s in stmts:
-                if s[0] == "for":
-                    visit(s[4])
-                elif s[0] == "while":
-                    visit(s[2])
-                elif s[0] == "if":
-                    visit(s[2])
-                    visit(s[3])
-
-        visit(d["region"])
-        ctx.check(nmoves >= 4 and nemits == 3, f"{side} {nm}: lock-step rule bound to {nmoves} stack moves and {nemits} emissions", where,
-                  nontrivial=False)
+    SEM.r5_lockstep(ctx, _load(ctx))
 
 
 def r6_value_flow(ctx):
-    """input values reach control flow only through |p-q| < |r-s|; outputs only through |p-q|/2 and (p+q)/2"""
-    S = _load(ctx)
-    VAL = {"peaks", "pts", "X", "Y", "A", "B"}
-    for side, nm in (("C", "rainflow1"), ("C", "rainflow2"), ("py", "_rainflow1"), ("py", "_rainflow2")):
-        d = S.c[nm] if side == "C" else S.py[nm]
-        where = _cwhere() + f" ({nm})" if side == "C" else d["fn"]
-        reg = d["region"]
-        defs = {}
-        for s in R.walk_ir(reg):
-            if s[0] == "set" and s[1][0] == "var" and s[1][1] in ("X", "Y"):
-                defs.setdefault(s[1][1], []).append(s[2])
-
-        def is_absdiff(e):
-            return e[0] == "abs" and e[1][0] == "bin" and e[1][1] == "-" and all(
-                x[0] in ("idx", "var") and (x[1] in VAL) for x in (e[1][2], e[1][3]))
-
-        conds = []
-        for s in R.walk_ir(reg):
-            if s[0] in ("while", "if"):
-                conds.append(s[1])
-        nval = 0
-        for c in conds:
-            vs = R.expr_vars(c) & VAL
-            if not vs:
-                continue
-            nval += 1
-            ok = c[0] == "cmp" and c[1] == "<" and c[2] == ("var", "X") and c[3] == ("var", "Y") \
-                and all(is_absdiff(e) for e in defs.get("X", []) + defs.get("Y", [])) and defs.get("X") and defs.get("Y")
-            ctx.check(ok, f"{side} {nm}: data reaches control flow only through |p-q| < |r-s| (`{R.fmt_expr(c)}`)", where)
-        ctx.check(nval == 1, f"{side} {nm}: exactly one data-dependent branch", where, nontrivial=False)
-        # index expressions and loop bounds must not depend on data
-        for s in R.walk_ir(reg):
-            idxs = []
-            if s[0] == "set":
-                if s[1][0] == "idx":
-                    idxs.append(s[1][2])
-                stack = [s[2]]
-                while stack:
-                    e = stack.pop()
-                    if e[0] == "idx":
-                        idxs.append(e[2])
-                    stack.extend(x for x in e[1:] if isinstance(x, tuple) and x and isinstance(x[0], str) and x[0] in
-                                 ("idx", "bin", "abs", "neg", "cmp", "var", "num"))
-                if s[1][0] == "var" and s[1][1] not in VAL:
-                    ok = not (R.expr_vars(s[2]) & VAL)
-                    ctx.check(ok, f"{side} {nm}: counter `{s[1][1]}` does not depend on data", where, nontrivial=False)
-            for ix in idxs:
-                ok = not (R.expr_vars(ix) & VAL)
-                if not ok:
-                    ctx.fail(f"{side} {nm}: index expression depends on data", where, R.fmt_expr(ix))
-        # outputs
-        for s in R.walk_ir(reg):
-            if s[0] == "emit" and s[1] == "rf":
-                amp, mean, cnt = s[2]
-                okA = amp[0] == "bin" and amp[1] == "/" and amp[3] == _num(2) and (
-                    (amp[2] == ("var", "Y")) or is_absdiff(amp[2]))
-                okM = mean[0] == "bin" and mean[1] == "/" and mean[3] == _num(2) and mean[2][0] == "bin" and mean[2][1] == "+"
-                okC = cnt[0] == "num" and cnt[1] in (Fraction(1, 2), Fraction(1))
-                ctx.check(okA and okM and okC,
-                          f"{side} {nm}: emitted row is (|p-q|/2, (p+q)/2, 0.5|1.0): `{R.fmt([s])[0][:80]}`", where)
-                if okA and okM:
-                    # amplitude and mean are of the same pair
-                    pair_m = {repr(mean[2][2]), repr(mean[2][3])}
-                    if amp[2] == ("var", "Y"):
-                        yd = defs["Y"][0][1]
-                        pair_a = {repr(yd[2]), repr(yd[3])}
-                        # at j == 2 the pair (pts[j-2], pts[j-1]) is (pts[0], pts[1])
-                        alt = {repr(("idx", "pts", _num(0))), repr(("idx", "pts", _num(1)))}
-                        ok = pair_m == pair_a or pair_m == alt
-                    else:
-                        pair_a = {repr(amp[2][1][2]), repr(amp[2][1][3])}
-                        ok = pair_m == pair_a
-                    ctx.check(ok, f"{side} {nm}: amplitude and mean of a row are taken from the same two points", where)
-    ctx.note("R6 => negating the input negates means only, shifting adds to means only, positive scaling scales amplitude and mean: "
-             "control flow sees only |p-q| < |r-s|, which is invariant under x -> -x, x + c, a*x (a>0)")
+    SEM.r6_value_flow(ctx, _load(ctx))
 
 
 def r7_selection(ctx):
@@ -473,8 +205,17 @@ def r7_selection(ctx):
     txt = utext(fn)
     ok = "L=peaks.sizeifpeaks.ndim==1else0" in txt and "ifL<2:" in txt and "raiseValueError" in txt
     ctx.check(ok, "py_rain.rainflow: L = size of a 1-d vector else 0; L < 2 is refused", fn)
-    ok = "ifgetoffsets:return_rainflow2(peaks,L)" in txt.replace("\n", "") and "return_rainflow1(peaks,L)" in txt
-    ctx.check(ok, "py_rain.rainflow dispatches on getoffsets to _rainflow2/_rainflow1 with (peaks, L)", fn)
+    from .paths import flag_paths
+    for flag, want in ((True, "_rainflow2"), (False, "_rainflow1")):
+        rets = set()
+        for trace, end in flag_paths(fn.body, lambda t, flag=flag: {"getoffsets": flag, "L<2": False}.get(utext(t)),
+                                     relevant=lambda st: False):
+            if isinstance(end, ast.Return) and end.value is not None:
+                rets.add(utext(end.value))
+            elif end is None:
+                rets.add("<falls off the end>")
+        ok = rets == {f"{want}(peaks,L)"}
+        ctx.check(ok, f"py_rain.rainflow(getoffsets={flag}) returns {want}(peaks, L) on every path", fn, sorted(rets))
     args = [a.arg for a in fn.args.args]
     ctx.check(args == ["peaks", "getoffsets"], "py_rain.rainflow(peaks, getoffsets)", fn, nontrivial=False)
     # numba rebinding: only jit(nopython=True) of the same functions
@@ -596,14 +337,39 @@ def _py_capacities(d):
 
 
 def _py_slices(d):
-    """[(array, stop Aff)] of the returned prefix slices"""
+    """[(array, stop Aff)] of the returned prefix slices; a stop given through a local (`ncycles = L - fullcyclesp1` after the loops) is resolved"""
+    fn = d["fn"]
+    loops = [i for i, st in enumerate(fn.body) if isinstance(st, (ast.For, ast.While))]
+    after = {}
+    for i, st in enumerate(fn.body):
+        if isinstance(st, ast.Assign) and len(st.targets) == 1 and isinstance(st.targets[0], ast.Name):
+            if loops and i > loops[-1]:
+                a_ = _py_aff(st.value)
+                if a_ is not None:
+                    for k, v in after.items():
+                        if k in a_.c:
+                            a_ = a_.subs(k, v)
+                    after[st.targets[0].id] = a_
+
+    def stop_aff(node):
+        a_ = _py_aff(node)
+        if a_ is None:
+            return None
+        for k, v in after.items():
+            if k in a_.c:
+                a_ = a_.subs(k, v)
+        return a_
+
     out = []
     for r in d["rets"]:
         vals = r.value.elts if isinstance(r.value, ast.Tuple) else [r.value]
         for v in vals:
             if isinstance(v, ast.Subscript) and isinstance(v.value, ast.Name) and isinstance(v.slice, ast.Slice) \
                     and v.slice.lower is None and v.slice.step is None and v.slice.upper is not None:
-                out.append((v.value.id, _py_aff(v.slice.upper)))
+                sa = stop_aff(v.slice.upper)
+                if sa is None:
+                    raise Unsupported(f"returned slice stop {ast.unparse(v.slice.upper)} is not affine")
+                out.append((v.value.id, sa))
             elif isinstance(v, ast.Name):
                 out.append((v.id, None))     # whole array
             else:
@@ -669,15 +435,17 @@ def _c_capacities(d, low):
 
 
 def r4_counter_balance(ctx):
-    """for every input of length L >= 2: every pts/cycle_index/peaks access is within [0, L-1], every emitted row is below the output
-    capacity, rows == L - fullcyclesp1 on exit (the returned slice is exactly the rows written), fullcyclesp1 - 1 == number of
-    count-1 rows, and the counts sum to (L-1)/2"""
-    from .e8_karr import Aff, Analysis, State, V, aff_of_ir
+    """for every input of length L >= 2: every pts/cycle_index/peaks access is within [0, L-1], every row written is below the capacity of
+    the output arrays, rows == L - fullcyclesp1 on exit (the returned prefix is exactly the rows written), fullcyclesp1 - 1 == number of
+    count-1 rows, and the counts sum to (L-1)/2.  Abstract interpretation (affine equalities + template inequalities) of the counter
+    program extracted from the path effects of each implementation."""
+    from .e8_karr import Aff, CounterAnalysis, State, V, aff_of_ir
     S = _load(ctx)
+    impl = SEM.implementations(ctx, S)
     L = V("L")
-    for side, nm in (("C", "rainflow1"), ("C", "rainflow2"), ("py", "_rainflow1"), ("py", "_rainflow2")):
+    for (side, nm), a in impl.items():
         d = S.c[nm] if side == "C" else S.py[nm]
-        where = _cwhere() + f" ({nm})" if side == "C" else d["fn"]
+        where = a["where"]
         tag = f"{side} {nm}"
         if side == "C":
             caps, stop, guard = _c_capacities(d, d["low"])
@@ -685,111 +453,97 @@ def r4_counter_balance(ctx):
         else:
             caps = _py_capacities(d)
             slices = _py_slices(d)
-        arrays = dict(caps)
+        arrays = {k: v for k, v in caps.items() if k not in ("rf", "os")}
         arrays["peaks"] = L          # C05-R7 checks that both entry points pass L = the length of the 1-D peaks array
-        need = {"pts", "rf"} | ({"cycle_index", "os"} if nm.endswith("2") else set())
-        if not need <= set(arrays):
-            ctx.error(f"{tag}: no allocation found for {sorted(need - set(arrays))}", where)
+        need = {"pts", "rf"} | ({"cycle_index", "os"} if a["offsets"] else set())
+        if not need <= set(caps):
+            ctx.error(f"{tag}: no allocation found for {sorted(need - set(caps))}", where)
             continue
-        ixvars = set()
-        for st_ in R.walk_ir(d["region"]):
-            if st_[0] == "for":
-                ixvars.add(st_[1])
-                ixvars |= R.expr_vars(st_[3])
-        def idxv(e):
-            if e[0] == "idx":
-                ixvars.update(R.expr_vars(e[2]))
-            for c in e[1:]:
-                if isinstance(c, tuple):
-                    idxv(c)
-        for st_ in R.walk_ir(d["region"]):
-            for c in st_[1:]:
-                if isinstance(c, tuple) and c and isinstance(c[0], str):
-                    idxv(c)
-                elif isinstance(c, tuple):
-                    for cc in c:
-                        if isinstance(cc, tuple):
-                            idxv(cc)
-        ixvars.discard("L")
-        an = Analysis(arrays, sorted(ixvars))
-        st0 = State()
-        used = set()
-        for s_ in R.walk_ir(d["region"]):
-            for c in s_[1:]:
-                if isinstance(c, tuple):
-                    try:
-                        used |= R.expr_vars(c)
-                    except Exception:  # noqa
-                        pass
-        for v, val in d["inits"].items():
-            if val.denominator == 1 and v in ("j", "fullcyclesp1"):
-                st0.assign(v, Aff({}, val))
-        st0.assign("rows", Aff({}, 0))
-        st0.assign("fullrows", Aff({}, 0))
-        st0.lb["L"] = 2                 # both entry points refuse L < 2 (C05-R7)
+        outs = [caps[k] for k in ("rf", "os") if k in need]
         try:
-            ex, brk = an.block(d["region"], st0)
+            prog = SEM.counter_program(a)
         except Unsupported as e:
-            ctx.error(f"{tag}: abstract interpretation gave up: {e}", where)
+            ctx.error(f"{tag}: counter program: {e}", where)
             continue
-        # (a) every access in bounds, every emission below capacity, loop ranges well formed
+        ints = a["res"]["ints"]
+        ixvars = sorted(v for v in ints if v != "L")
+        results = []
+        for cap in {repr(c): c for c in outs}.values():
+            an = CounterAnalysis(arrays, ixvars, cap)
+            st0 = State()
+            for v, val in a["inits"].items():
+                if v in ints and v != a["rowvar"] and val.denominator == 1:
+                    st0.assign(v, Aff({}, val))
+            st0.assign("rows", Aff({}, 0))
+            st0.assign("fullrows", Aff({}, 0))
+            st0.lb["L"] = 2                 # both entry points refuse L < 2 (C05-R7)
+            try:
+                ex, brk = an.block(prog, st0)
+            except Unsupported as e:
+                ctx.error(f"{tag}: abstract interpretation gave up: {e}", where)
+                an = None
+                break
+            results.append((an, ex))
+        if not results or an is None:
+            continue
         seen = set()
-        for desc, ok, strepr in an.obl:
-            if (desc, ok) in seen:
-                continue
-            seen.add((desc, ok))
-            ctx.check(ok, f"{tag}: {desc}", where, None if ok else f"not derivable from the loop invariant {strepr}")
-        # (b) emission counts are 1/2 or 1
-        for cnt, _ in an.emits:
-            ok = cnt in (("num", Fraction(1, 2)), ("num", Fraction(1)))
-            ctx.check(ok, f"{tag}: an emitted count is 0.5 or 1 ({R.fmt_expr(cnt)})", where)
-        # (c) exit relations
-        fc = V("fullcyclesp1")
+        for an, ex in results:
+            for desc, ok, strepr in an.obl:
+                if (desc, ok) in seen:
+                    continue
+                seen.add((desc, ok))
+                ctx.check(ok, f"{tag}: {desc}", where, None if ok else f"not derivable from the loop invariant {strepr}")
+        an, ex = results[0]
+        fcs = [v for v in a["state"] if v in ints and v not in ("L",) and a["inits"].get(v) == 1]
+        if len(fcs) != 1:
+            ctx.error(f"{tag}: the full-cycle counter (integer state variable initialised to 1) was not identified", where, sorted(fcs))
+            continue
+        fc = V(fcs[0])
         rows, full = V("rows"), V("fullrows")
         ok = ex.entails_eq(rows - (L - fc))
-        ctx.check(ok, f"{tag}: on exit the number of rows written is exactly L - fullcyclesp1", where, None if ok else repr(ex))
+        ctx.check(ok, f"{tag}: on exit the number of rows written is exactly L - {fcs[0]}", where, None if ok else repr(ex))
         ok = ex.entails_eq(full - (fc - 1))
-        ctx.check(ok, f"{tag}: fullcyclesp1 - 1 is exactly the number of count-1 rows", where, None if ok else repr(ex))
+        ctx.check(ok, f"{tag}: {fcs[0]} - 1 is exactly the number of count-1 rows", where, None if ok else repr(ex))
         ok = ex.entails_eq(full + rows - (L - 1))
         ctx.check(ok, f"{tag}: 2 * sum(counts) = 2*full + half = L - 1 (every interval between successive points is counted once)", where,
                   None if ok else repr(ex))
-        # (d) the returned prefix is the rows written
         if side == "py":
-            want = {"rf"} | ({"os"} if nm.endswith("2") else set())
-            got = {a for a, _ in slices}
+            want = {"rf"} | ({"os"} if a["offsets"] else set())
+            got = {x for x, _ in slices}
             ctx.check(got == want, f"{tag}: returns {sorted(want)}", where, sorted(got))
             for arr, stp in slices:
                 if stp is None:
-                    ok = ex.entails_eq(rows - arrays[arr])
+                    ok = ex.entails_eq(rows - caps[arr])
                     ctx.check(ok, f"{tag}: {arr} is returned whole and is full (rows == capacity)", where, None if ok else repr(ex))
                 else:
                     ok = ex.entails_eq(rows - stp)
                     ctx.check(ok, f"{tag}: the returned slice {arr}[:{stp}] is exactly the rows written", where, None if ok else repr(ex))
         else:
             if stop is None:
-                ok = ex.entails_eq(rows - arrays["rf"])
+                ok = ex.entails_eq(rows - caps["rf"])
                 ctx.check(ok, f"{tag}: the output is returned whole and is full", where, None if ok else repr(ex))
             else:
-                t, f = an.guard(guard, ex) if guard is not None else (ex, State(bottom=True))
+                t, f = (ex.copy(), State(bottom=True))
                 if guard is not None and guard[0] == "cmp":
-                    a, b = aff_of_ir(guard[2]), aff_of_ir(guard[3])
-                    if a is not None and b is not None:
-                        neg = {">": b - a, ">=": b - a - 1, "<": a - b, "<=": a - b - 1}.get(guard[1])
+                    ga, gb = aff_of_ir(guard[2]), aff_of_ir(guard[3])
+                    if ga is not None and gb is not None:
+                        t, f = an.guard(("cmpaff", guard[1], ga - gb), ex)
+                        neg = {">": gb - ga, ">=": gb - ga - 1, "<": ga - gb, "<=": ga - gb - 1}.get(guard[1])
                         if neg is not None:
                             f.assume_nonneg(neg)
                 ok = t.bottom or t.entails_eq(rows - stop)
                 ctx.check(ok, f"{tag}: when {R.fmt_expr(guard) if guard else 'always'}, the returned slice [:{stop}] is exactly the rows written", where,
                           None if ok else repr(t))
-                ok = f.bottom or f.entails_eq(rows - arrays["rf"])
-                ctx.check(ok, f"{tag}: otherwise the whole output is returned and it is full (rows == {arrays['rf']})", where, None if ok else repr(f))
+                ok = f.bottom or f.entails_eq(rows - caps["rf"])
+                ctx.check(ok, f"{tag}: otherwise the whole output is returned and it is full (rows == {caps['rf']})", where, None if ok else repr(f))
 
 
 RULES = [
-    ("C05-R1", r1_isomorphism, 8),
+    ("C05-R1", r1_equivalence, 8),
     ("C05-R2", r2_erasure, 2),
     ("C05-R3", r3_astm, 4),
     ("C05-R4", r4_counter_balance, 150),
-    ("C05-R5", r5_lockstep, 20),
+    ("C05-R5", r5_lockstep, 12),
     ("C05-R6", r6_value_flow, 40),
     ("C05-R7", r7_selection, 10),
     ("C05-R8", r8_buffers, 10),
